@@ -97,9 +97,11 @@ type vf18Sandbox struct {
 	baseVer string // version current-manifest named when the journal of the last apply was written
 	baseRes map[int]string // what each artifact path of that apply resolved to (bytes read through the path)
 	clean   bool           // no operator edit since then
+	baseOwn map[int]string // owner (uid-gid) of every baseline path when the baseline was taken
 	planted string         // directory planted to make saveCurrentManifest fail (fail label 36)
 	order35 string         // "" unknown / "ok" / "BAD": did current-manifest.yaml land before the completed journal?
 	inoFd   int
+	ownMon  string
 	aux     [vf18NPaths]string
 }
 
@@ -363,7 +365,7 @@ func (sb *vf18Sandbox) check35() {
 
 // ---- sandbox ----
 func vf18NewSandbox(root string, key, wrong *ecdsa.PrivateKey, pubPEM []byte) (*vf18Sandbox, error) {
-	sb := &vf18Sandbox{root: root, key: key, wrong: wrong}
+	sb := &vf18Sandbox{root: root, key: key, wrong: wrong, ownMon: "-"}
 	inst := filepath.Join(root, "inst")
 	for _, d := range []string{inst, filepath.Join(inst, "sub"), filepath.Join(root, "state"), filepath.Join(root, "run", "systemd"),
 		filepath.Join(root, "keys"), filepath.Join(root, "tb")} {
@@ -372,7 +374,7 @@ func vf18NewSandbox(root string, key, wrong *ecdsa.PrivateKey, pubPEM []byte) (*
 		}
 	}
 	sb.paths = [vf18NPaths]string{filepath.Join(inst, "a0"), filepath.Join(inst, "a1"), filepath.Join(inst, "a2"),
-		filepath.Join(inst, "sub", "a3"), filepath.Join(inst, "newdir", "a4")}
+		filepath.Join(inst, "sub", "a0"), filepath.Join(inst, "newdir", "a4")} // node 3 shares its BASENAME with node 0
 	if err := os.MkdirAll(filepath.Join(root, "aux"), 0o755); err != nil {
 		return nil, err
 	}
@@ -491,6 +493,30 @@ func (sb *vf18Sandbox) resolved(id int) string {
 
 // spec: r<c>.<octal> | s<t> | d | x
 func (sb *vf18Sandbox) setFile(p int, spec string) error {
+	own := ""
+	if i := strings.IndexByte(spec, '@'); i >= 0 {
+		spec, own = spec[:i], spec[i+1:]
+	}
+	if err := sb.setFile0(p, spec); err != nil {
+		return err
+	}
+	if own != "" && os.Geteuid() == 0 {
+		var u, g int
+		fmt.Sscanf(own, "%d-%d", &u, &g)
+		path, _ := sb.pathOf(p)
+		if err := os.Lchown(path, u, g); err != nil {
+			return err
+		}
+		if spec != "" && spec[0] == 'r' { // chown strips setuid/setgid: set the mode again
+			parts := strings.SplitN(spec[1:], ".", 2)
+			m, _ := strconv.ParseInt(parts[1], 8, 32)
+			return os.Chmod(path, vf18GoMode(int(m)))
+		}
+	}
+	return nil
+}
+
+func (sb *vf18Sandbox) setFile0(p int, spec string) error {
 	path, ok := sb.pathOf(p)
 	if !ok {
 		return fmt.Errorf("bad node id %d", p)
@@ -673,6 +699,20 @@ func (sb *vf18Sandbox) curVersion() string {
 	return "?"
 }
 
+// ownership monitor (harness only; the model has no owners): after ok every artifact is owned as the manifest says
+// (uid/gid -1 = the creating user), after a reported rollback every baseline path is owned as when the baseline was taken
+func (sb *vf18Sandbox) ownRestored() string {
+	if !sb.hasBase {
+		return "na"
+	}
+	for p, want := range sb.baseOwn {
+		if vf18Own(sb.paths[p]) != want {
+			return "BAD"
+		}
+	}
+	return "ok"
+}
+
 func (sb *vf18Sandbox) observeVer(res, mon, ver, rm string) string {
 	cur := "?"
 	if m, err := ParseManifestFile(filepath.Join(sb.runner.StateRoot, "current-manifest.yaml")); err == nil {
@@ -708,7 +748,7 @@ func (sb *vf18Sandbox) observeVer(res, mon, ver, rm string) string {
 		rv[i] = sb.resolved(i)
 	}
 	return fmt.Sprintf("%s j=%s cur=%s sn=%s fs=%s ax=%s rv=%s mon=%s ver=%s rm=%s", res, sb.phase(), cur, sns,
-		strings.Join(sb.dump(), ","), strings.Join(ax, ","), strings.Join(rv, ","), mon, ver, rm)
+		strings.Join(sb.dump(), ","), strings.Join(ax, ","), strings.Join(rv, ","), mon, ver, rm) + " own=" + sb.ownMon
 }
 
 // ---- tarball construction ----
@@ -717,6 +757,35 @@ type vf18Art struct {
 	c    int
 	mode string // "e" empty, "b" bad, octal digits
 	rc   string
+	uid  int // manifest uid / gid; -1 = leave as created
+	gid  int
+}
+
+func vf18ParseArts(s string) []vf18Art {
+	var arts []vf18Art
+	for _, it := range strings.Split(s, ",") {
+		f := strings.Split(it, ":")
+		p, _ := strconv.Atoi(f[0])
+		c, _ := strconv.Atoi(f[1])
+		a := vf18Art{p: p, c: c, mode: f[2], rc: f[3], uid: -1, gid: -1}
+		if len(f) >= 6 && os.Geteuid() == 0 { // ownership can only be exercised as root
+			a.uid, _ = strconv.Atoi(f[4])
+			a.gid, _ = strconv.Atoi(f[5])
+		}
+		arts = append(arts, a)
+	}
+	return arts
+}
+
+func vf18Own(path string) string {
+	fi, err := os.Lstat(path)
+	if err != nil {
+		return "x"
+	}
+	if st, ok := fi.Sys().(*syscall.Stat_t); ok {
+		return fmt.Sprintf("%d-%d", st.Uid, st.Gid)
+	}
+	return "?"
 }
 
 type vf18Member struct {
@@ -724,6 +793,17 @@ type vf18Member struct {
 	body []byte
 	typ  byte
 	link string
+}
+
+// tarball member name of artifact i: flat, in a sub-directory, and two members with the same basename
+func vf18Src(i int) string {
+	switch i % 4 {
+	case 1:
+		return "bin/m"
+	case 2:
+		return "plugins/m"
+	}
+	return "m" + strconv.Itoa(i)
 }
 
 func vf18Sha(b []byte) string {
@@ -887,12 +967,12 @@ func (sb *vf18Sandbox) buildTarball(kv map[string]string, arts []vf18Art) (strin
 	}
 	for i, a := range arts {
 		rc := map[string]string{"o": "osvbngd", "v": "vpp", "b": "both", "n": "none"}[a.rc]
-		src := "m" + strconv.Itoa(i)
+		src := vf18Src(i)
 		if tam == "nosrc" && i == len(arts)-1 {
 			src = "absent-member"
 		}
 		if tam == "dupman" && i == 1 {
-			src = "m0" // one member listed twice in the manifest (the generator gives both artifacts the same content)
+			src = vf18Src(0) // one member listed twice in the manifest (the generator gives both artifacts the same content)
 		}
 		fmt.Fprintf(&y, "  - path: %s\n    source: %s\n    sha256: %s\n", sb.paths[a.p], src, digestOf(i))
 		switch a.mode {
@@ -902,7 +982,7 @@ func (sb *vf18Sandbox) buildTarball(kv map[string]string, arts []vf18Art) (strin
 		default:
 			fmt.Fprintf(&y, "    mode: \"%s\"\n", a.mode)
 		}
-		fmt.Fprintf(&y, "    uid: -1\n    gid: -1\n    requires_restart: %s\n", rc)
+		fmt.Fprintf(&y, "    uid: %d\n    gid: %d\n    requires_restart: %s\n", a.uid, a.gid, rc)
 		if i == 0 && strings.HasPrefix(tam, "dup") && tam != "dupman" {
 			// the same member name twice in the archive; the later entry is what a correct extractor ends up with
 			good := memberBody(0)
@@ -925,7 +1005,7 @@ func (sb *vf18Sandbox) buildTarball(kv map[string]string, arts []vf18Art) (strin
 			}
 			continue
 		}
-		members = append(members, vf18Member{name: "m" + strconv.Itoa(i), body: memberBody(i)})
+		members = append(members, vf18Member{name: vf18Src(i), body: memberBody(i)})
 	}
 	hookBody := []byte("#!/bin/sh\nexit 0\n")
 	switch kv["hook"] {
@@ -934,6 +1014,9 @@ func (sb *vf18Sandbox) buildTarball(kv map[string]string, arts []vf18Art) (strin
 		members = append(members, vf18Member{name: "hooks/pre.sh", body: hookBody})
 	case "m":
 		fmt.Fprintf(&y, "hooks:\n  pre:\n    path: hooks/pre.sh\n    sha256: %s\n", vf18Sha(hookBody))
+	case "p": // a POST hook whose digest does not match: must only warn, the apply has already succeeded
+		fmt.Fprintf(&y, "hooks:\n  post:\n    path: hooks/post.sh\n    sha256: %s\n", vf18Sha([]byte("something else")))
+		members = append(members, vf18Member{name: "hooks/post.sh", body: hookBody})
 	}
 	if tam != "nomanifest" {
 		members = append([]vf18Member{{name: "manifest.yaml", body: []byte(y.String())}}, members...)
@@ -963,6 +1046,10 @@ func (sb *vf18Sandbox) buildTarball(kv map[string]string, arts []vf18Art) (strin
 	sigBytes := vf18Sign(sigKey, data)
 	if sig == "flip" {
 		data[5] ^= 0x40 // gzip MTIME byte: the archive still decompresses, the signed digest no longer matches
+	}
+	if strings.HasPrefix(sig, "flip") && len(sig) == 5 { // flip1..flip9: one bit somewhere else in the archive
+		k := int(sig[4] - '0')
+		data[(len(data)-1)*k/9] ^= 1 << uint(k%8)
 	}
 	if sig == "garb" {
 		sigBytes = []byte("!!! not base64 !!!\n")
@@ -1025,13 +1112,7 @@ func (sb *vf18Sandbox) verRestored() string {
 
 func (sb *vf18Sandbox) doApply(tokens []string) string {
 	kv := vf18KV(tokens)
-	var arts []vf18Art
-	for _, it := range strings.Split(kv["arts"], ",") {
-		f := strings.Split(it, ":")
-		p, _ := strconv.Atoi(f[0])
-		c, _ := strconv.Atoi(f[1])
-		arts = append(arts, vf18Art{p: p, c: c, mode: f[2], rc: f[3]})
-	}
+	arts := vf18ParseArts(kv["arts"])
 	tarPath, err := sb.buildTarball(kv, arts)
 	if err != nil {
 		return "harness-error:" + strings.ReplaceAll(err.Error(), " ", "_")
@@ -1055,6 +1136,10 @@ func (sb *vf18Sandbox) doApply(tokens []string) string {
 		preRes[a.p] = sb.resolved(a.p)
 	}
 	preVer := sb.curVersion()
+	preOwn := map[int]string{}
+	for _, a := range arts {
+		preOwn[a.p] = vf18Own(sb.paths[a.p])
+	}
 	_, jidBefore := sb.journal()
 	res := "?"
 	func() {
@@ -1116,6 +1201,7 @@ func (sb *vf18Sandbox) doApply(tokens []string) string {
 		sb.clean = true
 		sb.hasBase = true
 		sb.base = map[int]string{}
+		sb.baseOwn = preOwn
 		for _, a := range arts {
 			sb.base[a.p] = pre[a.p]
 		}
@@ -1154,20 +1240,41 @@ func (sb *vf18Sandbox) doApply(tokens []string) string {
 		mon = sb.monRestored(now)
 		ver = sb.verRestored()
 		rm = sb.resRestored()
+		sb.ownMon = sb.ownRestored()
+		defer func() { sb.ownMon = "-" }()
 	}
+	sb.ownMon = "-"
+	switch res {
+	case "ok":
+		sb.ownMon = "ok"
+		me := strconv.Itoa(os.Geteuid()) + "-" + strconv.Itoa(os.Getegid())
+		for _, a := range arts {
+			want := me
+			if a.uid >= 0 || a.gid >= 0 {
+				u, g := os.Geteuid(), os.Getegid()
+				if a.uid >= 0 {
+					u = a.uid
+				}
+				if a.gid >= 0 {
+					g = a.gid
+				}
+				want = strconv.Itoa(u) + "-" + strconv.Itoa(g)
+			}
+			if vf18Own(sb.paths[a.p]) != want {
+				sb.ownMon = "BAD"
+			}
+		}
+	case "err:rolledback":
+		sb.ownMon = sb.ownRestored()
+	}
+	defer func() { sb.ownMon = "-" }()
 	return sb.observeVer(res, mon, ver, rm)
 }
 
 // Plan is the read-only dry run: whatever the tarball is, nothing observable may change
 func (sb *vf18Sandbox) doPlan(tokens []string) string {
 	kv := vf18KV(tokens)
-	var arts []vf18Art
-	for _, it := range strings.Split(kv["arts"], ",") {
-		f := strings.Split(it, ":")
-		p, _ := strconv.Atoi(f[0])
-		c, _ := strconv.Atoi(f[1])
-		arts = append(arts, vf18Art{p: p, c: c, mode: f[2], rc: f[3]})
-	}
+	arts := vf18ParseArts(kv["arts"])
 	tarPath, err := sb.buildTarball(kv, arts)
 	if err != nil {
 		return "harness-error"
@@ -1230,6 +1337,8 @@ func (sb *vf18Sandbox) doRollback(tokens []string) string {
 		mon = sb.monRestored(sb.dump())
 		ver = sb.verRestored()
 		rm = sb.resRestored()
+		sb.ownMon = sb.ownRestored()
+		defer func() { sb.ownMon = "-" }()
 	}
 	return sb.observeVer(res, mon, ver, rm)
 }
